@@ -496,13 +496,12 @@ fn hex(hash: &impl AsRef<[u8]>) -> String {
     digest
 }
 
+/// RDFC-1.0, Hash N-Degree Quads, steps 5.4.4.3 and 5.4.5.5:
+/// `path2` can be abandoned in favour of the chosen `path1` only if it is
+/// at least as long as `path1` *and* greater than `path1` in code point order
+/// (a shorter path may still grow; a longer but smaller path must win at step 5.4.6).
 fn smaller_path(path1: &str, path2: &str) -> bool {
-    use std::cmp::Ordering::{Equal, Greater, Less};
-    match Ord::cmp(&path1.len(), &path2.len()) {
-        Less => true,
-        Equal => path1 < path2,
-        Greater => false,
-    }
+    path1.len() <= path2.len() && path1 < path2
 }
 
 /// Iter over all the components of a [`Quad`] as Option.
